@@ -259,6 +259,8 @@ def load_known():
 
 def b2s(b):
     """bytes -> printable JSON-safe text (latin-1 escapes kept visible)"""
+    if isinstance(b, (list, tuple)):
+        return [b2s(x) for x in b]
     if isinstance(b, bytes):
         try:
             s = b.decode("utf-8")
